@@ -13,6 +13,7 @@ import (
 	"math/rand"
 	"net"
 	"os"
+	"path/filepath"
 	"regexp"
 	"strconv"
 	"strings"
@@ -1114,14 +1115,14 @@ const c14wait = 3 * time.Second
 
 // handshake through a rig in standby: trigger, ACT, CFG.  Returns the classification in the
 // same canonical form as the export path.
-func (c *ctx) c14pipeHandshake(in *c14hsIn, rng *rand.Rand) (string, *c14WA, *c14WC, string) {
+func (c *ctx) c14pipeHandshake(in *c14hsIn, rng *rand.Rand) (string, *c14WA, *c14WC, string, [][]byte) {
 	g := c14newRig()
 	defer g.close()
 	trig, retag := c14trigger('R')
 	g.srvW.Write(trig)
 	got := c14recv(g.atCli, c14wait)
 	if got == nil || !bytes.Contains(got, []byte("#R")) || !bytes.Contains(got, []byte(retag)) {
-		return "?trigger-not-rewritten:" + hx(got), nil, nil, "?trigger"
+		return "?trigger-not-rewritten:" + hx(got), nil, nil, "?trigger", nil
 	}
 	fc, fs := in.lines(rng)
 	var ts, tc [][]byte
@@ -1166,7 +1167,8 @@ func (c *ctx) c14pipeHandshake(in *c14hsIn, rng *rand.Rand) (string, *c14WA, *c1
 		}
 		tc = append(tc, b)
 	}
-	return c14classify(ts, tc, st)
+	kind, fa, fc2, cn := c14classify(ts, tc, st)
+	return kind, fa, fc2, cn, tc
 }
 
 func (c *ctx) c14pipeHandshakes() {
@@ -1187,18 +1189,41 @@ func (c *ctx) c14pipeHandshakes() {
 		ins[i] = in
 		rngs[i] = rand.New(rand.NewSource(c.rng.Int63()))
 	}
+	// the clients a trzsz client can be without a tunnel (on Windows / not), confirmed, refused, and with a
+	// server line that is no CFG, through the relay as NewTrzszRelay builds it
+	k := 0
+	for _, cliWindows := range []bool{true, false} {
+		for outc := 0; outc < 3 && k < n; outc++ {
+			tr := true
+			in := &c14hsIn{mode: 0, width: -1, act: &c14WA{lang: c14s("go"), version: c14s("1.1.8"), confirm: c14b(outc != 1),
+				newline: c14s(c14nl(cliWindows)), protocol: c14i(4), binary: c14b(!cliWindows), dir: &tr, tunnel: c14b(false), fork: c14b(false)}}
+			if outc == 2 {
+				in.badCfg = c14line("SUCC", []byte(`1`), c14nl(cliWindows))
+			} else {
+				in.cfg = &c14WC{bufsize: c14i(2 << 20), timeout: c14i(33), protocol: c14i(4), overwrite: &tr, compress: c14i(2)}
+			}
+			ins[k] = in
+			k++
+		}
+	}
 	type res struct {
 		kind, canon string
 		act         *c14WA
 		cfg         *c14WC
+		tc          [][]byte
 	}
 	out := make([]res, n)
 	parallelDo(n, 16, func(i int) {
-		k, a, g, cn := c.c14pipeHandshake(ins[i], rngs[i])
-		out[i] = res{k, cn, a, g}
+		k, a, g, cn, tc := c.c14pipeHandshake(ins[i], rngs[i])
+		out[i] = res{k, cn, a, g, tc}
 	})
 	for i, in := range ins {
 		c.c14checkHs(in, out[i].kind, out[i].act, out[i].cfg, "pipe-handshake")
+		if in.act != nil {
+			cliWin := in.act.newline != nil && *in.act.newline == "!\n"
+			c.c14oracleFraming(&c14fhIn{mode: 0, width: -1, act: in.act, cfg: in.cfg, cfgBad: in.badCfg != nil,
+				cfgWin: cliWin && !c14val(in.act.tunnel, false), desc: "NewTrzszRelay over pipes"}, out[i].kind, out[i].tc, "pipe-handshake")
+		}
 		c.count("pipe-hs:" + strings.SplitN(out[i].kind, ":", 2)[0])
 		c.emit(true, "handshake", out[i].canon, in.args()...)
 	}
@@ -2030,6 +2055,93 @@ func (c *ctx) c14server() {
 	}
 }
 
+// ---------------------------------------------------------------------------------
+// (E) end to end: the REAL client (trzsz.NewTrzszFilter) as a client on Windows
+// (trzsz.SetAffectedByWindows: it announces "newline":"!\n", offers no binary mode and reads
+// with the Windows line reader) and as a Unix client, through 1-2 real relays, against the real
+// trz / tsz child processes.  DIRECT ORACLE: the transfer completes and the destination equals
+// the source, as it does without a relay.
+
+type c14e2eCase struct {
+	windows, upload bool
+	relays          int
+	diffs           []string
+}
+
+func (c *ctx) c14e2eWindows() {
+	work, err := os.MkdirTemp("", "c14_e2e_")
+	if err != nil {
+		c.count("e2e:skipped:no-tempdir")
+		return
+	}
+	defer os.RemoveAll(work)
+	for _, windows := range []bool{true, false} {
+		var cases []*c14e2eCase
+		for _, relays := range []int{0, 1, 2} {
+			for _, upload := range []bool{true, false} {
+				if !windows && relays == 0 {
+					continue // C01's ground
+				}
+				cases = append(cases, &c14e2eCase{windows: windows, upload: upload, relays: relays})
+			}
+		}
+		seeds := make([]int64, len(cases))
+		for i := range seeds {
+			seeds[i] = c.rng.Int63()
+		}
+		trzsz.SetAffectedByWindows(windows)
+		parallelDo(len(cases), 6, func(i int) {
+			ec := cases[i]
+			rng := rand.New(rand.NewSource(seeds[i]))
+			root := filepath.Join(work, fmt.Sprintf("w%v_%d", windows, i))
+			src, dest := filepath.Join(root, "src"), filepath.Join(root, "dest")
+			os.MkdirAll(src, 0755)
+			os.MkdirAll(dest, 0755)
+			var tops []string
+			for j, n := range []int{0, 1 + rng.Intn(2000), 30000 + rng.Intn(60000)} {
+				p := filepath.Join(src, fmt.Sprintf("f%d.bin", j))
+				os.WriteFile(p, fillBytes(rng, n, j), 0644)
+				tops = append(tops, p)
+			}
+			r := runTransfer(e2eCfg{upload: ec.upload, relays: ec.relays, overwrite: rng.Intn(2) == 0, proto: -1, timeout: 10,
+				deadline: 30 * time.Second}, tops, dest)
+			shown := r.serverOut
+			if !ec.upload {
+				shown = r.termOut + r.serverOut
+			}
+			names, ok := parseSaved(shown)
+			if !(ok && !r.hung && r.clientDone && r.serverExited && (!ec.upload || r.uploadErr == nil)) {
+				ec.diffs = append(ec.diffs, fmt.Sprintf("no-success: hung=%v clientDone=%v serverExited=%v uploadErr=%v saved=%v tail=%q",
+					r.hung, r.clientDone, r.serverExited, r.uploadErr, ok, tailStr(r.termOut+"|"+r.serverOut, 300)))
+				return
+			}
+			if len(names) != len(tops) {
+				ec.diffs = append(ec.diffs, fmt.Sprintf("names-count: shown %v for %d sources", names, len(tops)))
+				return
+			}
+			for j, top := range tops {
+				ec.diffs = append(ec.diffs, sameTree(top, filepath.Join(dest, names[j]))...)
+			}
+		})
+		trzsz.SetAffectedByWindows(false)
+		for _, ec := range cases {
+			ck := map[bool]string{true: "windows-client", false: "unix-client"}[ec.windows]
+			dir := map[bool]string{true: "upload", false: "download"}[ec.upload]
+			desc := fmt.Sprintf("e2e %s relays=%d %s", ck, ec.relays, dir)
+			c.note(true, desc)
+			c.count(fmt.Sprintf("e2e:%s:relays=%d", ck, ec.relays))
+			if len(ec.diffs) > 0 {
+				key := fmt.Sprintf("relay-e2e-failed:%s:relays=%d:%s", ck, ec.relays, dir)
+				if ec.relays == 0 {
+					key = "e2e-failed-without-relay:" + ck + ":" + dir
+				}
+				c.violate(key, "a transfer between the real client ("+ck+") and the real "+map[bool]string{true: "trz", false: "tsz"}[ec.upload]+
+					" through "+strconv.Itoa(ec.relays)+" relay(s) did not complete with the destination equal to the source", desc+": "+strings.Join(ec.diffs, "; "))
+			}
+		}
+	}
+}
+
 func genRelayNeg(c *ctx) {
 	os.Unsetenv("TMUX") // checkTmux: noTmuxMode for NewTrzszRelay
 	sc := trzsz.VerifRelayStatusConsts()
@@ -2048,4 +2160,5 @@ func genRelayNeg(c *ctx) {
 	c.c14sequences()
 	c.c14chains()
 	c.c14server()
+	c.c14e2eWindows()
 }
